@@ -27,8 +27,10 @@ REPS = {
     "float_inf": [float("inf"), float("-inf")], "float_nan": [float("nan")],
     "str_numeric": ["123", "-7", " 12 ", "1_000", "+5", "٣", "007"],
     "str_short": ["", "abc", "café", "中文", "\U0001f600", "it's", 'say "hi"', "back\\slash", "line\nbreak",
-                  "tab\there", "\x00\x01", "\r\n", "\\u0041", "x" * 255],
-    "str_long": ["y" * 256, "€" * 300, "z" * 70000],
+                  "tab\there", "\x00\x01", "\r\n", "\\u0041", "x" * 255,
+                  "\u00e9" * 127 + "a", "\u4e2d" * 85],                       # exactly 255 encoded bytes
+    "str_long": ["y" * 256, "€" * 300, "z" * 70000,
+                 "\u4e2d" * 86, "\u00e9" * 128, "\U0001f600" * 64],             # at most 255 characters, more than 255 encoded bytes
     "str_layout": ["a = 1\n  \t\nb = 2\n", "  indented", "first\n    \nlast", "\tx\n\ty\n", "trailing  \n", "\n\n"],
     "bytes_numeric": [b"12", b" 7 ", b"-3"],
     "bytes_short": [b"", b"abc", b"\x00\xff", b"it's", b"\n", b"b" * 255], "bytes_long": [b"c" * 256, b"d" * 70000],
